@@ -100,6 +100,7 @@ def ob_sync(chk, ir):
     npaths = ncomp = ncrash = 0; done = set()
     for shape, out in zip(shapes, res):
         if out['inconclusive']: chk.obligation(f'sync shape {shape}', '-', 'inconclusive', out['inconclusive']); continue
+        if out['completed'] == 0: chk.obligation(f'sync shape {shape}', '-', 'inconclusive', 'vacuous: no run of the synchronisation completes for this primary content'); continue
         npaths += out['paths']; ncomp += out['completed']; ncrash += out['crash_points']
         chk.states += out['paths']; chk.transitions += out['transitions']; chk.queries += out['queries']; chk.solver_s += out['solver_s']; chk.functions |= set(out['functions'])
         for site, what, md in out['viol']:
@@ -207,6 +208,154 @@ def ob_outage(chk, ir):
     chk.sample({'obligation': 'outage', 'routes': [rt['path'] for rt in todo], 'accepting_from_cache': sorted(accepting)})
 
 
+LOADP = f'(*{M}.RuntimeState).LoadUserProfile'
+
+
+def gob_contract(H):
+    """encoding/gob as its contract: Encode(x) writes a term g naming the value; Decode of g yields a copy of that value; Decode of other
+    bytes yields an error or an arbitrary profile.  Every Decode leaves an event with the bytes it was handed."""
+    from symx import store
+    ex = H.ex
+    H.stub('encoding/gob.NewEncoder', lambda ex_, st, a, ins: Ptr(st.alloc(Opaque('gobenc', target=a[0].val if isinstance(a[0], IfaceV) else a[0]))))
+    def encode(ex_, st, a, ins):
+        enc = st.heap[a[0].obj]; v = a[1].val if isinstance(a[1], IfaceV) else a[1]
+        def ok(s):
+            n = len(s.aux.setdefault('gob', {})); g = z3.String(f'gob.encoding{n}')
+            s.aux['gob'][str(g)] = store.deep_copy(ex_, s, ex_.load(s, v)) if isinstance(v, Ptr) else v
+            s.heap[enc.target.obj] = {'buf': g}; s.ev('gob.encode', data=g); return nilerr()
+        return fork_results(ex_, st, ins, [(None, lambda s: mk_error(s, SV('gob: encode'), 'gob')), (None, ok)])
+    H.stub('(*encoding/gob.Encoder).Encode', encode)
+    H.stub('bytes.NewReader', lambda ex_, st, a, ins: Ptr(st.alloc(Opaque('reader', data=a[0]))))
+    H.stub('encoding/gob.NewDecoder', lambda ex_, st, a, ins: Ptr(st.alloc(Opaque('gobdec', src=a[0].val if isinstance(a[0], IfaceV) else a[0]))))
+    def decode(ex_, st, a, ins):
+        dec = st.heap[a[0].obj]; rd = st.heap[dec.src.obj]; data = rd.data.s if isinstance(rd.data, BytesV) else rd.data
+        tgt = a[1].val if isinstance(a[1], IfaceV) else a[1]
+        st.ev('gob.decode', data=data)
+        alts = [(None, lambda s: mk_error(s, SV('gob: decode'), 'gob'))]
+        for name, snap in (st.aux.get('gob') or {}).items():
+            g = z3.String(name)
+            def hit(s, snap=snap):
+                ex_.store(s, tgt, store.deep_copy(ex_, s, snap)); return nilerr()
+            alts.append((data == g, hit))
+        others = z3.And([data != z3.String(n) for n in (st.aux.get('gob') or {})] + [z3.BoolVal(True)])
+        def other(s):
+            s.counter += 1; UP = ex_.ir.typeid(M + '.userProfile'); ex_.store(s, tgt, ex_.materialise(s, Lazy(UP, f'decoded!{s.counter}'))); return nilerr()
+        alts.append((others, other))
+        return fork_results(ex_, st, ins, alts)
+    H.stub('(*encoding/gob.Decoder).Decode', decode)
+
+
+def roundtrip_worker(item):
+    ir = _IR; dbtype, leg, shape = item
+    out = {'item': item, 'viol': [], 'inconclusive': None, 'paths': 0, 'queries': 0, 'solver_s': 0.0, 'functions': [], 'transitions': 0, 'readbacks': 0}
+    H = HandlerRun(ir, loop_bound=6, budget_s=200); ex = H.ex; ex.ptr_nilable = False
+    gob_contract(H)
+    ex.go_inline = re.compile(r'LoadUserProfile\$')
+    user = z3.String('u'); other = z3.String('other.user')
+    rows = None
+    if leg == 'cache':
+        users = {'empty': [], 'other': [(other, z3.String('other.data'))], 'same': [(user, z3.String('previous.data'))]}[shape]
+        rows = {'users': users, 'signed': []}
+    prim = sq.tables_from_rows(rows['users'], []) if rows is not None else sq.arbitrary_tables('primary')
+    mk = sq.install(H, {'db': sq.DB('db', prim, rows), 'cache': sq.DB('cache', sq.arbitrary_tables('cache.old'))})
+    holder = {}
+    H.add_hints(pin(r'^\*state\.db$', lambda ex_, st, tid, name: holder['ptrs']['db']), pin(r'^\*state\.cacheDB$', lambda ex_, st, tid, name: holder['ptrs']['cache']),
+                pin(r'^\*state\.dbType$', SV(dbtype)))
+    st, state, w, r = H.mkstate(); holder['ptrs'] = mk(st); st.pc.append(other != user)
+    UP = ir.typeid(M + '.userProfile')
+    prof = Ptr(st.alloc(Lazy(UP, '*saved.profile')))
+    saves = ex.run(SAVE, [state, user, prof], st)
+    allp = list(saves)
+    def bad(p): return p.status in ('unsupported', 'unwind', 'panic')
+    for s1 in saves:
+        if bad(s1): out['inconclusive'] = str(s1.result); continue
+        if s1.status != 'returned' or not (isinstance(s1.result[0] if isinstance(s1.result, (list, tuple)) else s1.result, IfaceV) and (s1.result[0] if isinstance(s1.result, (list, tuple)) else s1.result).tid is None): continue
+        enc = s1.evs('gob.encode')
+        if not enc: out['viol'].append(('SaveUserProfile/no-encoding', 'SaveUserProfile reports success without encoding the profile', None)); continue
+        g = enc[-1]['data']
+        mids = [s1]
+        if leg == 'cache':
+            mids = []
+            s2 = s1.fork(); s2.status = 'run'; s2.frames = []
+            for c in ex.run(COPY, [holder['ptrs']['db'], holder['ptrs']['cache'], SV('sqlite')], s2):
+                allp.append(c)
+                if bad(c): out['inconclusive'] = str(c.result); continue
+                res = c.result[0] if isinstance(c.result, (list, tuple)) else c.result
+                if c.status == 'returned' and isinstance(res, IfaceV) and res.tid is None: mids.append(c)
+        for m_ in mids:
+            s3 = m_.fork(); s3.status = 'run'; s3.frames = []; nload = len(s3.evs('gob.decode'))
+            for l in ex.run(LOADP, [state, user], s3):
+                allp.append(l)
+                if l.status == 'blocked': continue
+                if bad(l): out['inconclusive'] = str(l.result); continue
+                if l.status != 'returned': continue
+                profile, ok, fromcache, err = l.result
+                if not (isinstance(err, IfaceV) and err.tid is None): continue      # storage errors are reported, not silent
+                want_cache = leg == 'cache'
+                if not ex.feasible(l.pc, fromcache if want_cache else z3.Not(fromcache)): continue
+                l2 = l.fork(); l2.pc.append(fromcache if want_cache else z3.Not(fromcache))
+                out['readbacks'] += 1
+                site = f'{leg}/{dbtype}/{shape}'
+                if ex.feasible(l2.pc, z3.Not(ok)):
+                    out['viol'].append((f'roundtrip/{site}/not-found', f'a profile saved successfully is reported absent when read back ({leg})', None)); continue
+                decs = l2.evs('gob.decode')[nload:]
+                if not decs: out['viol'].append((f'roundtrip/{site}/no-decode', 'the profile returned was not decoded from stored bytes', None)); continue
+                res, mm = ex.model_fresh(l2.pc, decs[-1]['data'] != g, 30000)
+                if res == 'unknown': out['inconclusive'] = 'solver unknown (roundtrip)'
+                if res == 'sat': out['viol'].append((f'roundtrip/{site}/other-bytes', f'the bytes decoded on read-back ({leg}) are not the bytes SaveUserProfile wrote for that user', model_dict(mm) if mm is not None else None))
+    out['paths'] = len(allp); out['transitions'] = sum(p.decisions for p in allp) + len(allp)
+    out['queries'] = ex.nq; out['solver_s'] = ex.tsolve; out['functions'] = sorted(ex.encoded)
+    return out
+
+
+def gob_encodable(ir, tid, seen, path, problems):
+    """structural: can encoding/gob carry every value of this type faithfully?  (exported fields only are transmitted; func / chan are
+    refused; interface values need registration; types with Binary/Gob marshallers carry themselves)"""
+    if tid in seen: return
+    seen.add(tid)
+    t0 = ir.types[tid]; ms = set(t0.get('mset') or [])
+    if {'MarshalBinary', 'GobEncode'} & ms or {'UnmarshalBinary', 'GobDecode'} & ms: return
+    k, t = ir.under(tid)[1]['kind'], ir.under(tid)[1]
+    if k in ('chan', 'func', 'signature'): problems.append(f'{path}: {k}-typed field is silently dropped by gob')
+    elif k == 'interface': problems.append(f'NOTE {path}: interface-typed component: gob carries registered dynamic types only and otherwise fails with an explicit error (no silent loss)')
+    elif k == 'struct':
+        for f in ir.fields(tid):
+            if not f['name'][:1].isupper(): problems.append(f'{path}.{f["name"]}: unexported field is silently dropped by gob'); continue
+            gob_encodable(ir, f['type'], seen, path + '.' + f['name'], problems)
+    elif k in ('pointer', 'slice', 'array'): gob_encodable(ir, t['elem'], seen, path, problems)
+    elif k == 'map': gob_encodable(ir, t['key'], seen, path + '[key]', problems); gob_encodable(ir, t['elem'], seen, path + '[]', problems)
+
+
+def ob_roundtrip(chk, ir):
+    global _IR
+    _IR = ir
+    t = time.time(); verdict = 'holds'
+    items = [(d, 'primary', '-') for d in ('sqlite', 'postgres')] + [('sqlite', 'cache', s) for s in ('empty', 'other', 'same')]
+    res = sweep.parallel(roundtrip_worker, items)
+    npaths = nrb = 0
+    for item, out in zip(items, res):
+        if out['inconclusive']: chk.obligation(f'roundtrip {item}', '-', 'inconclusive', out['inconclusive']); continue
+        if out['readbacks'] == 0: chk.obligation(f'roundtrip {item}', '-', 'inconclusive', 'vacuous: no successful read-back path'); continue
+        npaths += out['paths']; nrb += out['readbacks']
+        chk.states += out['paths']; chk.transitions += out['transitions']; chk.queries += out['queries']; chk.solver_s += out['solver_s']; chk.functions |= set(out['functions'])
+        for site, what, md in out['viol']:
+            r_ = chk.violation('roundtrip', site, what, md)
+            if r_ == 'new': verdict = 'violated'
+            elif verdict == 'holds': verdict = 'known'
+    problems = []
+    gob_encodable(ir, ir.typeid(M + '.userProfile'), set(), 'userProfile', problems)
+    for pr in [x for x in problems if x.startswith('NOTE ')]: chk.notes.append('roundtrip: ' + pr[5:])
+    for pr in [x for x in problems if not x.startswith('NOTE ')]:
+        r_ = chk.violation('roundtrip', 'gob-structure/' + pr.split(':')[0], 'userProfile is not faithfully gob-encodable: ' + pr, None)
+        if r_ == 'new': verdict = 'violated'
+        elif verdict == 'holds': verdict = 'known'
+    if nrb == 0: return
+    chk.witnesses += nrb
+    chk.obligation('roundtrip: the bytes decoded when a user is read back are the bytes SaveUserProfile wrote for that user - from the primary (sqlite, postgres statements) and, after a completed synchronisation, from the cache; userProfile is structurally gob-encodable',
+                   'SaveUserProfile ; [copyDBIntoSQLite ;] LoadUserProfile from SSA (goroutine, channel, select/timer race, SQL model), primary pre-state arbitrary (primary leg) / empty, other user, same user (cache leg)', verdict, paths=npaths, witness=f'{nrb} read-back paths', t=time.time() - t)
+    chk.sample({'obligation': 'roundtrip', 'legs': [list(i) for i in items], 'readbacks': nrb})
+
+
 def main(chk):
     ir = chk.load_ir()
     chk.assumptions = ['database/sql by the model in symx/sqlmodel.py: statements recognised from their constant text; a transaction works on a copy taken at its first statement and publishes it at Commit; db.Query with a non-SELECT statement may or may not execute it (driver dependent: both explored); every call can fail',
@@ -214,6 +363,7 @@ def main(chk):
     chk.bounds = {'primary rows': '0..2 users x 0..2 signed records (quick), 0..3 (thorough)', 'cache pre-state': 'arbitrary', 'faults': 'one failing call per run at every position (a failing call ends the function)'}
     ob_sync(chk, ir)
     ob_outage(chk, ir)
+    ob_roundtrip(chk, ir)
 
 
 if __name__ == '__main__':
